@@ -113,6 +113,7 @@ TRUSTED_BASE = [
     'asyncio.Queue is FIFO; asyncio.Event/Semaphore semantics; wait_for cancels and awaits its inner task; '
     'a task created without context= copies the creator context',
     'pydantic treated as a black box',
+    'an event queue hands out events, never None; the values of event_results are result records, never None',
     'only /repo/bubus/*.py is library code; user handlers are arbitrary (may raise any Exception, suspend, dispatch) '
     'but do not reach into private bus state',
     'the bubus-sa engine itself (validated by the thorough tier: seeded mutants must be reported, neutral variants must stay silent)',
